@@ -127,6 +127,15 @@ def tyEngine (f : String) (args : List String) : String :=
        | .error .callableBindingFailed => "err CallableBindingFailed"
        | .error .notAFunction => "err NotAFunction")
     | _ => "bad-op"
+  | "resolve", toks =>
+    -- first type is resolved with the binding given by the following (g:NAME, type) pairs
+    match parseTys toks with
+    | some (t :: kvs) =>
+      let rec pairs : List Ty → Bnd
+        | .generic k :: v :: rest => (k, v) :: pairs rest
+        | _ => []
+      showTy (resolveBind (pairs kvs) t)
+    | _ => "bad-op"
   | "specbind", toks =>
     -- first type must be a func: its spec is bound against the remaining types
     match parseTys toks with
